@@ -36,7 +36,7 @@ TEXT = {
          "contract-based deductive verification (Verus) of the real convert_to / no_simplify / with_conversion_target / ConvertTo arm; loop abstracted by havoc"),
  "C05": ("other", "4.9 / 4.15", "PARTIAL (two clauses): Verus proves (1) that full_simplify and full_simplify_with_registry return a value marked by an explicit conversion unchanged (the marking itself is proved for the ConvertTo arm), and (2) on the WHOLE real body of full_simplify_with_registry that whatever it returns is the heuristically simplified value itself or the result of convert_to applied to it for some unit - the registry branch never just relabels the unit. That convert_to preserves the physical magnitude, the heuristics of full_simplify and preservation of the dimension are NOT covered.",
          "contract-based deductive verification (Verus): can_simplify guards of the real full_simplify / full_simplify_with_registry (tails abstracted); provenance postcondition + loop invariant on the whole real full_simplify_with_registry with convert_to / full_simplify abstract"),
- "C10": ("other", "4.10 / 4.16 / 4.17 / 4.19", "PARTIAL: Verus proves for all token sequences that every precedence-level function of the real recursive-descent parser (postfix_apply, condition .. unicode_power, the generic parse_binop with its closures), call (argument lists, field access), arguments, identifier and the parenthesised / list / struct branches of primary return exactly the tree that the documented grammar prescribes for the tokens they consumed (one recursive spec relation g written from book/src/basics/operations.md), and that each level consumes the LONGEST derivation (after a level returns, the next token cannot continue it); the one-token primaries NaN / inf / ? / true / false; the run-time quantity-literal parser (parse_quantity_ast accepts exactly <number> [<unit>] and negations); and that no documented operator character (incl. the Unicode spellings ≤ ≥ ≠ → − ...) can be part of an identifier (character classes of the tokenizer; the fact about unicode_ident's tables is Kani-checked in the thorough tier). Decimal number literals (unit toknum: the real consume_stream_of_digits, scientific_notation, match_char and the two number arms of scan_single_token accept exactly the documented notation - integer with separators, floating point with or without leading zero, scientific - and take the longest match; consume_string never advances past the end of the input; the cursor primitives peek / advance are assumed). String literals, interpolation, base-prefixed integers, statements, the rest of the tokenizer and completeness of acceptance are not covered.",
+ "C10": ("other", "4.10 / 4.16 / 4.17 / 4.19", "PARTIAL: Verus proves for all token sequences that every precedence-level function of the real recursive-descent parser (postfix_apply, condition .. unicode_power, the generic parse_binop with its closures), call (argument lists, field access), arguments, identifier and the parenthesised / list / struct branches of primary return exactly the tree that the documented grammar prescribes for the tokens they consumed (one recursive spec relation g written from book/src/basics/operations.md), and that each level consumes the LONGEST derivation (after a level returns, the next token cannot continue it); the one-token primaries NaN / inf / ? / true / false; the run-time quantity-literal parser (parse_quantity_ast accepts exactly <number> [<unit>] and negations); and that no documented operator character (incl. the Unicode spellings ≤ ≥ ≠ → − ...) can be part of an identifier (character classes of the tokenizer; the fact about unicode_ident's tables is Kani-checked in the thorough tier). Decimal number literals (unit toknum: the real consume_stream_of_digits, scientific_notation, match_char and the two number arms of scan_single_token accept exactly the documented notation - integer with separators, floating point with or without leading zero, scientific - and take the longest match; consume_string never advances past the end of the input; the identifier arm consumes exactly the maximal run of identifier-continue characters (the scanner side of the tokchars argument); the cursor primitives peek / advance are assumed). String literals, interpolation, base-prefixed integers, statements, the rest of the tokenizer and completeness of acceptance are not covered.",
          "contract-based deductive verification (Verus) of the real parser functions against a recursive grammar relation; higher-order contracts (call_requires / call_ensures) for parse_binop's closures; block-level extraction of branches of primary; arm-level extraction of the tokenizer's number arms against a recursive longest-match recogniser"),
  "C22": ("other", "4.11", "PARTIAL (exit-status logic): Verus proves that the input loop of the real Cli::run returns Ok iff no evaluated input asked to stop (and then has evaluated all of them), that every error arm of parse_and_evaluate maps to exit_status_in_case_of_error, and that this is Break(Error) in normal mode. Stream routing, printing, `-e` joining, process::exit in main and the REPL are not covered.",
          "contract-based deductive verification (Verus) of the real run loop (statement-level extraction), the error arms of parse_and_evaluate (arm-level) and exit_status_in_case_of_error"),
